@@ -190,6 +190,13 @@ def run_wait_case(case, acc):
                 viols.append(("negative_timeout_polled", ctx))
             acc.case(case, False, viols)
             return
+        if case.get("recycled"):
+            # the process the object was made for is gone and its PID already belongs to somebody else (not our child) when
+            # wait() is first called: the call keeps its documented way of working - it waits for the PID, i.e. returns None
+            # once the newcomer is gone too, or times out - and never answers NoSuchProcess
+            w.t.remove(PID)
+            w.t.spawn(PID, 999000, ppid=1, comm=b"newcomer")
+            acc.count("waits_on_an_object_whose_pid_was_recycled_before_the_call")
         w.clock.advance(0)        # exits scheduled at +0 have already happened when wait() is called
         start = w.clock.t
         w.polls.clear()
@@ -334,6 +341,10 @@ def grid_cases(tier):
         for timeout in (0, 0.0001, 0.003, 0.05, 0.2):
             for k in range(0, 24):
                 out.append(dict(kind=kind, exit_at=None, exit_at_access=k, status=(5 << 8), timeout=timeout))
+    for timeout in (0, 0.05, 0.3, None):
+        for x in (0.01, 0.1, 0.29, 0.31, 1.0, None):
+            if not (timeout is None and x is None):
+                out.append(dict(kind="nonchild", exit_at=x, status=0, timeout=timeout, recycled=True))
     for timeout in (None, 0, 0.2):
         out.append(dict(kind="never", exit_at=None, status=0, timeout=timeout))
     for timeout in (-1, -0.0001, -1e9):
@@ -364,6 +375,8 @@ def gen_wait_case(rng):
     case = dict(kind=kind, exit_at=exit_at, status=status, timeout=timeout)
     if kind == "child" and rng.random() < 0.2:
         case["eintr_at"] = rng.randrange(0, 30)
+    if kind == "nonchild" and rng.random() < 0.2 and (exit_at is None or exit_at > 0):
+        case["recycled"] = True
     if rng.random() < 0.15 and timeout is not None:
         case["exit_at"] = None
         case["exit_at_access"] = rng.randrange(0, 40)
